@@ -35,7 +35,16 @@ type boundedResult struct {
 	Output   string  `json:"-"`
 	FirstFail string `json:"first_failure,omitempty"`
 	Ran      bool    `json:"ran"`
+	Named    []boundedCase `json:"named_cases,omitempty"` // individually named inputs (GOVC-BOUNDED-CASE lines)
 }
+
+type boundedCase struct {
+	Name   string `json:"name"`
+	OK     bool   `json:"ok"`
+	Detail string `json:"detail,omitempty"`
+}
+
+var boundedCaseLine = regexp.MustCompile(`^GOVC-BOUNDED-CASE name=(\S+) ok=(true|false) ?(.*)$`)
 
 var boundedLine = regexp.MustCompile(`GOVC-BOUNDED name=(\S+) cases=(\d+) distinct=(\d+) failures=(\d+)`)
 
@@ -79,6 +88,9 @@ func runBounded(verif, repo, prop string) []boundedResult {
 		for _, l := range strings.Split(string(o), "\n") {
 			if strings.HasPrefix(l, "GOVC-BOUNDED-FAIL ") {
 				res.FirstFail = strings.TrimPrefix(l, "GOVC-BOUNDED-FAIL ")
+			}
+			if m := boundedCaseLine.FindStringSubmatch(l); m != nil {
+				res.Named = append(res.Named, boundedCase{Name: m[1], OK: m[2] == "true", Detail: m[3]})
 			}
 		}
 		out = append(out, res)
